@@ -726,7 +726,7 @@ Proof. pose proof (frame_at_cA pr o l) as H. unfold cA in H. injection H; auto. 
    unless the state already is. *)
 Lemma client_removal_frame pr o :
   p_panic (frame pr o) = None -> n_setup pr = true -> SCliDisconnected ∈ p_order pr ->
-  bit pr 25 = true ->
+  (is_cli_disconnected (default (s_client pr) (s_next_client pr)) = false -> bit pr 25 = true) ->
   during pr o (fun m => n_cli_transport m = None) ->
   s_next_client (frame pr o) =
     if is_cli_disconnected (default (s_client pr) (s_next_client pr)) then None else Some CliDisconnected.
@@ -747,8 +747,8 @@ Proof.
       else (SCliDisconnected ∉ l -> s_next_client m = None /\ bit m 25 = true)
            /\ (SCliDisconnected ∈ l -> s_next_client m = Some CliDisconnected))).
     - intros _. destruct (frame_start_spec pr o).
-      destruct (is_cli_disconnected c); [auto|]. split.
-      + intros _. split; [auto|]. unfold bit. rewrite ss_bits0. exact Hb.
+      destruct (is_cli_disconnected c) eqn:Hcd; [auto|]. split.
+      + intros _. split; [auto|]. unfold bit. rewrite ss_bits0. exact (Hb Hcd).
       + intros H. inversion H.
     - clear l. intros l s m Em IH Hpre. specialize (IH (prefix_snoc _ _ _ Hpre)).
       destruct Hpre as [l2 Hpre]. rewrite <- app_assoc in Hpre. cbn [app] in Hpre.
@@ -793,7 +793,724 @@ Proof.
   set (pr0 := app_step pr ORemoveTransports) in *.
   assert (p_panic pr0 = None) as Hp0.
   { destruct (p_panic pr0) eqn:E; [erewrite frame_panicked in Hp by eauto; congruence|reflexivity]. }
-  pose proof (client_removal_frame pr0 o1 Hp Hs Hin Hb Hd) as Hn.
+  pose proof (client_removal_frame pr0 o1 Hp Hs Hin (fun _ => Hb) Hd) as Hn.
   rewrite frame_s_client by auto. rewrite Hn. rewrite frame_s_client by auto.
   destruct (default (s_client pr0) (s_next_client pr0)); reflexivity.
+Qed.
+
+(* ---------- server ------------------------------------------------------------------------------ *)
+
+Lemma sys_key_10 s : sys_key s = 10 -> s = SSrvConnected.
+Proof. destruct s; cbn; intros H; try discriminate H; try reflexivity; lia. Qed.
+
+(* The server transport is absent during a whole frame and resource_removed had seen it. *)
+Lemma server_removal_frame pr o :
+  p_panic (frame pr o) = None -> n_setup pr = true -> SSrvDisconnected ∈ p_order pr ->
+  bit pr 11 = true ->
+  during pr o (fun m => n_srv_transport m = None) ->
+  s_next_server (frame pr o) =
+    if is_srv_connected (default (s_server pr) (s_next_server pr)) then Some SrvDisconnected else None.
+Proof.
+  intros Hp Hs Hin Hb Hd.
+  assert (p_panic pr = None) as Hp0.
+  { destruct (p_panic pr) eqn:E; [erewrite frame_panicked in Hp by eauto; congruence|reflexivity]. }
+  rewrite frame_next_server by auto.
+  set (c := default (s_server pr) (s_next_server pr)).
+  assert (forall l, (exists l2, p_order pr = l ++ l2) ->
+    let m := frame_at pr o l in
+    if is_srv_connected c
+    then (SSrvDisconnected ∉ l -> s_next_server m = None /\ bit m 11 = true)
+         /\ (SSrvDisconnected ∈ l -> s_next_server m = Some SrvDisconnected)
+    else s_next_server m = None) as Hinv.
+  { intros l. unfold frame_at.
+    apply (run_systems_ind (fun l m => (exists l2, p_order pr = l ++ l2) ->
+      if is_srv_connected c
+      then (SSrvDisconnected ∉ l -> s_next_server m = None /\ bit m 11 = true)
+           /\ (SSrvDisconnected ∈ l -> s_next_server m = Some SrvDisconnected)
+      else s_next_server m = None)).
+    - intros _. destruct (frame_start_spec pr o).
+      destruct (is_srv_connected c); [|auto]. split.
+      + intros _. split; [auto|]. unfold bit. rewrite ss_bits0. exact Hb.
+      + intros H. inversion H.
+    - clear l. intros l s m Em IH Hpre. specialize (IH (prefix_snoc _ _ _ Hpre)).
+      destruct Hpre as [l2 Hpre]. rewrite <- app_assoc in Hpre. cbn [app] in Hpre.
+      fold (frame_at pr o l) in Em.
+      assert (p_panic m = None) as Hpm by (subst m; eapply frame_at_no_panic; eauto).
+      assert (n_srv_transport m = None) as Htm by (subst m; eapply Hd; eauto).
+      destruct (frame_at_fields pr o l) as (_ & Hc & Hsm & _). rewrite <- Em in Hc, Hsm. fold c in Hc.
+      destruct (run_system_step m s o Hpm) as [_ Hnc Hbits _ _ _].
+      assert (s <> SSrvDisconnected -> next_server_after m s = s_next_server m) as Hother.
+      { intros Hne. destruct s; try reflexivity; try congruence; unfold next_server_after, fires, srv_added;
+          rewrite Htm; cbn; rewrite ?andb_false_r; reflexivity. }
+      destruct (is_srv_connected c) eqn:Hcd.
+      + destruct IH as [IH1 IH2]. destruct (decide (s = SSrvDisconnected)) as [->|Hne].
+        * split; [intros Hn; exfalso; apply Hn, elem_of_app; right; left|]. intros _.
+          rewrite Hnc. unfold next_server_after, fires. rewrite Hsm, Hs, Hc, Hcd, Htm. cbn.
+          destruct (decide (SSrvDisconnected ∈ l)) as [Hl|Hl].
+          -- rewrite (IH2 Hl). destruct (bit m 11); reflexivity.
+          -- destruct (IH1 Hl) as [_ ->]. reflexivity.
+        * rewrite Hnc, (Hother Hne). split.
+          -- intros Hn. assert (SSrvDisconnected ∉ l) as Hl by (intros Hl; apply Hn, elem_of_app; auto).
+             destruct (IH1 Hl) as [-> Hb']. split; [reflexivity|].
+             rewrite (bit_after_other m s _ 11 Hbits); [exact Hb'|discriminate|congruence].
+          -- intros Hn. apply elem_of_app in Hn as [Hl|Hl]; [auto|].
+             apply elem_of_list_singleton in Hl. congruence.
+      + rewrite Hnc. destruct (decide (s = SSrvDisconnected)) as [->|Hne]; [|rewrite Hother; auto].
+        unfold next_server_after, fires. rewrite Hc, Hcd, andb_false_r. exact IH. }
+  specialize (Hinv (p_order pr) (ex_intro _ [] (eq_sym (app_nil_r _)))). cbv zeta in Hinv.
+  destruct (is_srv_connected c); [|exact Hinv]. apply Hinv, Hin.
+Qed.
+
+(* no system of the order shares its last-run key with the resource_added condition of
+   server_connected (sys_key (SApp 3010) = sys_key (SDetect 4010) = ckey 10 in the model) *)
+Definition order_keys_ok (l : list sysid) : Prop := forall s, s ∈ l -> sys_key s <> ckey 10.
+
+(* A server transport is present during a whole frame, either not yet seen by resource_added
+   or with the state already (becoming) Connected. *)
+Lemma server_insertion_frame pr o t :
+  p_panic (frame pr o) = None -> n_setup pr = true -> SSrvConnected ∈ p_order pr ->
+  order_keys_ok (p_order pr) ->
+  during pr o (fun m => n_srv_transport m = Some t) ->
+  last_run pr (ckey 10) < t \/ default (s_server pr) (s_next_server pr) = SrvConnected ->
+  s_next_server (frame pr o) =
+    if is_srv_connected (default (s_server pr) (s_next_server pr)) then None else Some SrvConnected.
+Proof.
+  intros Hp Hs Hin Hk Hd Hfresh.
+  assert (p_panic pr = None) as Hp0.
+  { destruct (p_panic pr) eqn:E; [erewrite frame_panicked in Hp by eauto; congruence|reflexivity]. }
+  rewrite frame_next_server by auto.
+  set (c := default (s_server pr) (s_next_server pr)) in *.
+  assert (forall l, (exists l2, p_order pr = l ++ l2) ->
+    let m := frame_at pr o l in
+    if is_srv_connected c then s_next_server m = None
+    else (SSrvConnected ∉ l -> s_next_server m = None /\ last_run m (ckey 10) < t)
+         /\ (SSrvConnected ∈ l -> s_next_server m = Some SrvConnected)) as Hinv.
+  { intros l. unfold frame_at.
+    apply (run_systems_ind (fun l m => (exists l2, p_order pr = l ++ l2) ->
+      if is_srv_connected c then s_next_server m = None
+      else (SSrvConnected ∉ l -> s_next_server m = None /\ last_run m (ckey 10) < t)
+           /\ (SSrvConnected ∈ l -> s_next_server m = Some SrvConnected))).
+    - intros _. destruct (frame_start_spec pr o).
+      destruct (is_srv_connected c) eqn:Hcd; [auto|]. split.
+      + intros _. split; [auto|]. unfold last_run. rewrite ss_last_run0.
+        destruct Hfresh as [Hf|Hf]; [exact Hf|]. rewrite Hf in Hcd. discriminate.
+      + intros H. inversion H.
+    - clear l. intros l s m Em IH Hpre. specialize (IH (prefix_snoc _ _ _ Hpre)).
+      destruct Hpre as [l2 Hpre]. rewrite <- app_assoc in Hpre. cbn [app] in Hpre.
+      fold (frame_at pr o l) in Em.
+      assert (p_panic m = None) as Hpm by (subst m; eapply frame_at_no_panic; eauto).
+      assert (n_srv_transport m = Some t) as Htm by (subst m; eapply Hd; eauto).
+      assert (sys_key s <> ckey 10) as Hks.
+      { apply Hk. rewrite Hpre. apply elem_of_app. right. left. }
+      destruct (frame_at_fields pr o l) as (_ & Hc & Hsm & _). rewrite <- Em in Hc, Hsm. fold c in Hc.
+      destruct (run_system_step m s o Hpm) as [_ Hnc _ _ Hlr _].
+      assert (s <> SSrvConnected -> next_server_after m s = s_next_server m) as Hother.
+      { intros Hne. destruct s; try reflexivity; try congruence; unfold next_server_after, fires.
+        rewrite Htm. cbn. rewrite ?andb_false_r. reflexivity. }
+      destruct (is_srv_connected c) eqn:Hcd.
+      + rewrite Hnc. destruct (decide (s = SSrvConnected)) as [->|Hne]; [|rewrite Hother; auto].
+        unfold next_server_after, fires. rewrite Hc, Hcd, andb_false_r. exact IH.
+      + destruct IH as [IH1 IH2]. destruct (decide (s = SSrvConnected)) as [->|Hne].
+        * split; [intros Hn; exfalso; apply Hn, elem_of_app; right; left|]. intros _.
+          rewrite Hnc. unfold next_server_after, fires, srv_added. rewrite Hsm, Hs, Hc, Hcd, Htm. cbn.
+          destruct (decide (SSrvConnected ∈ l)) as [Hl|Hl].
+          -- rewrite (IH2 Hl). destruct (_ <? _); reflexivity.
+          -- destruct (IH1 Hl) as [_ Hlt]. apply N.ltb_lt in Hlt. rewrite Hlt. reflexivity.
+        * rewrite Hnc, (Hother Hne). split.
+          -- intros Hn. assert (SSrvConnected ∉ l) as Hl by (intros Hl; apply Hn, elem_of_app; auto).
+             destruct (IH1 Hl) as [-> Hlt]. split; [reflexivity|].
+             unfold last_run. rewrite Hlr; [exact Hlt|auto|].
+             unfold ckey. intros E. apply Hne, sys_key_10. lia.
+          -- intros Hn. apply elem_of_app in Hn as [Hl|Hl]; [auto|].
+             apply elem_of_list_singleton in Hl. congruence. }
+  specialize (Hinv (p_order pr) (ex_intro _ [] (eq_sym (app_nil_r _)))). cbv zeta in Hinv.
+  destruct (is_srv_connected c); [exact Hinv|]. apply Hinv, Hin.
+Qed.
+
+(* ServerState follows the server transport within two frames (any oracles):
+   present throughout the next frame (fresh for resource_added, or the state already is or is
+   becoming Connected) => Connected; absent throughout the next frame, after resource_removed
+   had seen it => Disconnected. *)
+Theorem server_state_tracks_hosting pr o1 o2 :
+  n_setup pr = true -> p_panic (frame pr o1) = None ->
+  (forall t, SSrvConnected ∈ p_order pr -> order_keys_ok (p_order pr) ->
+     during pr o1 (fun m => n_srv_transport m = Some t) ->
+     last_run pr (ckey 10) < t \/ default (s_server pr) (s_next_server pr) = SrvConnected ->
+     s_server (frame (frame pr o1) o2) = SrvConnected)
+  /\ (SSrvDisconnected ∈ p_order pr -> bit pr 11 = true ->
+      during pr o1 (fun m => n_srv_transport m = None) ->
+      s_server (frame (frame pr o1) o2) = SrvDisconnected).
+Proof.
+  intros Hs Hp.
+  assert (p_panic pr = None) as Hp0.
+  { destruct (p_panic pr) eqn:E; [erewrite frame_panicked in Hp by eauto; congruence|reflexivity]. }
+  split.
+  - intros t Hin Hk Hd Hf. pose proof (server_insertion_frame pr o1 t Hp Hs Hin Hk Hd Hf) as Hn.
+    rewrite frame_s_server by auto. rewrite Hn. rewrite frame_s_server by auto.
+    destruct (default (s_server pr) (s_next_server pr)); reflexivity.
+  - intros Hin Hb Hd. pose proof (server_removal_frame pr o1 Hp Hs Hin Hb Hd) as Hn.
+    rewrite frame_s_server by auto. rewrite Hn. rewrite frame_s_server by auto.
+    destruct (default (s_server pr) (s_next_server pr)); reflexivity.
+Qed.
+
+(* ---------- invariants of runs from init_peer --------------------------------------------------- *)
+
+(* before ServerPlugin / ClientPlugin is added, nothing is ever published *)
+Definition setup_inv (pr : peer_state) : Prop :=
+  n_setup pr = false ->
+  s_client pr = CliDisconnected /\ s_next_client pr = None
+  /\ s_server pr = SrvDisconnected /\ s_next_server pr = None.
+
+Lemma g0_fields a b : g0 a = g0 b -> n_setup a = n_setup b /\ p_order a = p_order b /\ tv a = tv b.
+Proof. unfold g0, c1, tv. intros H. injection H; intros. repeat split; congruence. Qed.
+
+Lemma app_step_setup pr op : n_setup (app_step pr op) = n_setup pr \/ n_setup (app_step pr op) = true.
+Proof.
+  destruct op; unfold app_step; cbv zeta; try (left; reflexivity).
+  - left. apply (g0_fields _ _ (g0_upd_ent _ _ _)).
+  - left. apply (g0_fields _ _ (g0_upd_ent _ _ _)).
+  - left. apply (g0_fields _ _ (g0_upd_ent _ _ _)).
+  - left. destruct (alive pr c); [|reflexivity]. apply (g0_fields _ _ (g0_add_child _ _ _)).
+  - right. destruct host; reflexivity.
+Qed.
+
+Lemma fires_no_setup pr s : n_setup pr = false -> fires pr s = false.
+Proof. intros H. destruct s; try reflexivity; unfold fires; rewrite H; reflexivity. Qed.
+
+Lemma after_no_fire pr s :
+  fires pr s = false -> next_client_after pr s = s_next_client pr /\ next_server_after pr s = s_next_server pr.
+Proof.
+  intros H. destruct s; try (split; reflexivity); unfold next_client_after, next_server_after;
+    rewrite H; split; reflexivity.
+Qed.
+
+Lemma frame_setup_inv pr o : setup_inv pr -> setup_inv (frame pr o).
+Proof.
+  intros Hi. destruct (p_panic pr) eqn:Hp; [erewrite frame_panicked; eauto|].
+  intros Hs. rewrite frame_unfold in * by auto.
+  destruct (frame_end_c1 (frame_at pr o (p_order pr))) as [Hc _].
+  assert (n_setup pr = false) as Hs0.
+  { destruct (frame_at_fields pr o (p_order pr)) as (_ & _ & <- & _).
+    unfold c1 in Hc. injection Hc; intros. congruence. }
+  destruct (Hi Hs0) as (I1 & I2 & I3 & I4).
+  assert (s_next_client (frame_at pr o (p_order pr)) = None /\ s_next_server (frame_at pr o (p_order pr)) = None) as [N1 N2].
+  { unfold frame_at. apply (run_systems_ind (fun _ m => s_next_client m = None /\ s_next_server m = None)).
+    - destruct (frame_start_spec pr o). auto.
+    - intros l s m Em [IH1 IH2]. fold (frame_at pr o l) in Em.
+      destruct (p_panic m) eqn:Hpm; [erewrite run_system_panicked; eauto|].
+      destruct (run_system_step m s o Hpm) as [-> -> _ _ _ _].
+      destruct (frame_at_fields pr o l) as (_ & _ & Hsm & _). rewrite <- Em in Hsm.
+      destruct (after_no_fire m s (fires_no_setup m s (eq_trans Hsm Hs0))) as [-> ->]. auto. }
+  destruct (frame_at_fields pr o (p_order pr)) as (F1 & F2 & _ & _).
+  rewrite I1, I2 in F1. rewrite I3, I4 in F2. cbn in F1, F2.
+  unfold c1 in Hc. injection Hc; intros. repeat split; congruence.
+Qed.
+
+Lemma app_step_setup_inv pr op : setup_inv pr -> setup_inv (app_step pr op).
+Proof.
+  intros Hi Hs. destruct (app_step_setup pr op) as [E|E]; [|congruence].
+  destruct (app_step_spec pr op). rewrite E in Hs. destruct (Hi Hs) as (? & ? & ? & ?).
+  repeat split; congruence.
+Qed.
+
+Lemma prun_setup_inv id st rg ord l : setup_inv (prun (init_peer id st rg ord) l).
+Proof.
+  apply prun_inv'; [apply app_step_setup_inv | apply frame_setup_inv |].
+  intros _. repeat split; reflexivity.
+Qed.
+
+Corollary published_implies_setup id st rg ord l :
+  let pr := prun (init_peer id st rg ord) l in
+  (s_client pr <> CliDisconnected \/ s_server pr <> SrvDisconnected) -> n_setup pr = true.
+Proof.
+  cbv zeta. intros H. destruct (n_setup _) eqn:E; [reflexivity|].
+  destruct (prun_setup_inv id st rg ord l E) as (? & _ & ? & _). destruct H; contradiction.
+Qed.
+
+(* last-run stamps are in the past: a resource inserted now is fresh for every resource_added *)
+Definition ticks_ok (pr : peer_state) : Prop :=
+  0 < p_tick pr /\ forall k t, p_last_run pr !! k = Some t -> t < p_tick pr.
+
+Lemma clock_le_ticks_ok a b : clock_le a b -> ticks_ok a -> ticks_ok b.
+Proof.
+  intros [H1 H2] [Ha0 Ha]. split; [lia|]. intros k t H.
+  destruct (H2 k t H) as [H3|H3]; [|lia]. specialize (Ha k t H3). lia.
+Qed.
+
+Lemma frame_clock_le pr o : clock_le pr (frame pr o).
+Proof.
+  destruct (p_panic pr) eqn:Hp; [erewrite frame_panicked by eauto; apply clock_le_refl|].
+  rewrite frame_unfold by auto.
+  assert (clock_le pr (frame_at pr o (p_order pr))) as H.
+  { unfold frame_at. apply (run_systems_ind (fun _ m => clock_le pr m)).
+    - destruct (frame_start_spec pr o). split; [lia|]. intros k t. rewrite ss_last_run0. auto.
+    - intros l s m _ IH. destruct (p_panic m) eqn:Hpm; [erewrite run_system_panicked; eauto|].
+      eapply clock_le_trans; [exact IH|]. apply (run_system_step m s o Hpm). }
+  destruct (frame_end_c1 (frame_at pr o (p_order pr))) as [Hc _].
+  set (X := frame_at pr o (p_order pr)) in *.
+  assert (p_tick (frame_end X) = p_tick X) as Ht by exact (f_equal (fun c => snd (fst c)) Hc).
+  assert (p_last_run (frame_end X) = p_last_run X) as Hl by exact (f_equal snd Hc).
+  destruct H as [H1 H2]. split; [rewrite Ht; exact H1|]. intros k t. rewrite Hl, Ht. apply H2.
+Qed.
+
+Lemma prun_ticks_ok id st rg ord l : ticks_ok (prun (init_peer id st rg ord) l).
+Proof.
+  apply prun_inv'.
+  - intros pr op H. destruct (app_step_spec pr op). unfold ticks_ok. rewrite as_last_run0, as_tick0. apply H.
+  - intros pr o. apply clock_le_ticks_ok, frame_clock_le.
+  - split; [reflexivity|]. intros k t H. cbn in H. rewrite lookup_empty in H. discriminate.
+Qed.
+
+(* the order observed for the peer always has the five state systems *)
+Definition order_op_ok (op : app_op) : Prop :=
+  match op with OSetOrder ord => order_has_state_systems ord /\ order_keys_ok ord | _ => True end.
+Definition ops_ok (l : list (app_op + frame_oracle)) : Prop := forall op, inl op ∈ l -> order_op_ok op.
+
+Lemma frame_order pr o : p_order (frame pr o) = p_order pr.
+Proof.
+  destruct (p_panic pr) eqn:Hp; [erewrite frame_panicked; eauto|]. rewrite frame_unfold by auto.
+  destruct (frame_end_c1 (frame_at pr o (p_order pr))) as [Hc _]. apply c1_cA in Hc.
+  destruct (frame_at_fields pr o (p_order pr)) as (_ & _ & _ & F4).
+  exact (eq_trans (f_equal snd Hc) F4).
+Qed.
+
+Lemma app_step_order pr op :
+  p_order (app_step pr op) = match op with OSetOrder ord => ord | _ => p_order pr end.
+Proof.
+  destruct op; unfold app_step; cbv zeta; try reflexivity.
+  - apply (g0_fields _ _ (g0_upd_ent _ _ _)).
+  - apply (g0_fields _ _ (g0_upd_ent _ _ _)).
+  - apply (g0_fields _ _ (g0_upd_ent _ _ _)).
+  - destruct (alive pr c); [|reflexivity]. apply (g0_fields _ _ (g0_add_child _ _ _)).
+  - destruct host; reflexivity.
+Qed.
+
+Lemma prun_order_ok id st rg ord l :
+  order_has_state_systems ord -> order_keys_ok ord -> ops_ok l ->
+  let pr := prun (init_peer id st rg ord) l in
+  order_has_state_systems (p_order pr) /\ order_keys_ok (p_order pr).
+Proof.
+  intros H1 H2 Hok. cbv zeta.
+  apply (prun_inv order_op_ok (fun pr => order_has_state_systems (p_order pr) /\ order_keys_ok (p_order pr))).
+  - intros pr op Hop H. rewrite app_step_order. destruct op; auto.
+  - intros pr o H. rewrite frame_order. exact H.
+  - exact Hok.
+  - auto.
+Qed.
+
+Lemma once_in s l : once s l -> s ∈ l.
+Proof. intros (l1 & l2 & -> & _). apply elem_of_app. right. left. Qed.
+
+Lemma fresh_now pr k : ticks_ok pr -> last_run pr k < p_tick pr.
+Proof.
+  intros [H0 H]. unfold last_run. destruct (p_last_run pr !! k) as [t|] eqn:E; cbn; [eauto|exact H0].
+Qed.
+
+(* ---------- the two theorems on reachable states -------------------------------------------------- *)
+
+Section Reachable.
+  Variables (id : peer) (sty rg : list tyid) (ord : list sysid) (l : list (app_op + frame_oracle)).
+  Hypothesis order_ok : order_has_state_systems ord.
+  Hypothesis keys_ok : order_keys_ok ord.
+  Hypothesis l_ok : ops_ok l.
+  Let pr := prun (init_peer id sty rg ord) l.
+
+  Theorem client_removal_noticed o1 o2 :
+    let pr0 := app_step pr ORemoveTransports in
+    s_client pr <> CliDisconnected -> bit pr 25 = true ->
+    during pr0 o1 (fun m => n_cli_transport m = None) -> p_panic (frame pr0 o1) = None ->
+    s_client (frame (frame pr0 o1) o2) = CliDisconnected.
+  Proof.
+    cbv zeta. intros Hc Hb Hd Hp.
+    destruct (prun_order_ok id sty rg ord l order_ok keys_ok l_ok) as [(_ & _ & _ & _ & Ho) _].
+    apply client_back_to_disconnected_within_two_frames; auto using once_in.
+    apply published_implies_setup. auto.
+  Qed.
+
+  (* hosting starts (ServerPlugin added): Connected after two frames *)
+  Theorem hosting_published o1 o2 x :
+    let pr0 := app_step pr (OSetup true x) in
+    during pr0 o1 (fun m => n_srv_transport m = Some (p_tick pr)) -> p_panic (frame pr0 o1) = None ->
+    s_server (frame (frame pr0 o1) o2) = SrvConnected.
+  Proof.
+    cbv zeta. intros Hd Hp.
+    destruct (prun_order_ok id sty rg ord l order_ok keys_ok l_ok) as [(Ho & _) Hk].
+    apply (proj1 (server_state_tracks_hosting (app_step pr (OSetup true x)) o1 o2 eq_refl Hp) (p_tick pr)); auto using once_in.
+    left. apply (fresh_now pr), prun_ticks_ok.
+  Qed.
+
+  (* hosting stops *)
+  Theorem hosting_end_published o1 o2 :
+    let pr0 := app_step pr ORemoveTransports in
+    s_server pr = SrvConnected -> bit pr 11 = true ->
+    during pr0 o1 (fun m => n_srv_transport m = None) -> p_panic (frame pr0 o1) = None ->
+    s_server (frame (frame pr0 o1) o2) = SrvDisconnected.
+  Proof.
+    cbv zeta. unfold pr. intros Hc Hb Hd Hp.
+    destruct (prun_order_ok id sty rg ord l order_ok keys_ok l_ok) as [(_ & Ho & _) _].
+    assert (n_setup (prun (init_peer id sty rg ord) l) = true) as Hs by (apply published_implies_setup; right; congruence).
+    apply (proj2 (server_state_tracks_hosting (app_step (prun (init_peer id sty rg ord) l) ORemoveTransports) o1 o2 Hs Hp)); auto using once_in.
+  Qed.
+End Reachable.
+
+(* ---------- the `existed` bit ------------------------------------------------------------------- *)
+
+Definition o_idle : frame_oracle :=
+  {| fo_conn_events := []; fo_clients := []; fo_status := None; fo_srv_poll := []; fo_cli_poll := 0;
+     fo_downloads := [] |}.
+
+(* Full-strength statement asked for: on every state reachable from init_peer (orders with the
+   five state systems), a published state other than Disconnected implies that resource_removed
+   has seen the client transport. *)
+Definition existed_bit_invariant_statement : Prop :=
+  forall id sty rg ord l,
+    order_has_state_systems ord -> order_keys_ok ord -> ops_ok l ->
+    let pr := prun (init_peer id sty rg ord) l in
+    s_client pr <> CliDisconnected -> bit pr 25 = true.
+
+(* It is FALSE in the model (and in Bevy: resource_removed only samples the resource when it is
+   evaluated).  A transport inserted by a deferred command between the evaluation of
+   set_client_to_disconnected's condition and that of set_client_to_connecting's, and removed
+   before the next frame, is seen by resource_added but never by resource_removed: ClientState
+   goes to Connecting and stays there for ever, with no transport. *)
+Definition stuck_order : list sysid :=
+  [SApp 0; SCliDisconnected; SSync; SCliConnecting; SCliVerify; SSrvConnected; SSrvDisconnected].
+Definition stuck_trace : list (app_op + frame_oracle) :=
+  [inl (OSetup false 0); inl ORemoveTransports; inl (OAppCmd 0 (CStartClientTo 0 false));
+   inr o_idle; inl ORemoveTransports; inr o_idle].
+
+Ltac once_tac :=
+  split; [reflexivity|split; intros H; repeat (apply elem_of_cons in H as [H|H]; [discriminate H|]); inversion H].
+
+Lemma stuck_order_ok : order_has_state_systems stuck_order /\ order_keys_ok stuck_order.
+Proof.
+  split.
+  - unfold order_has_state_systems, stuck_order. repeat split.
+    + exists [SApp 0; SCliDisconnected; SSync; SCliConnecting; SCliVerify], [SSrvDisconnected].
+      once_tac.
+    + exists [SApp 0; SCliDisconnected; SSync; SCliConnecting; SCliVerify; SSrvConnected], [].
+      once_tac.
+    + exists [SApp 0; SCliDisconnected; SSync], [SCliVerify; SSrvConnected; SSrvDisconnected].
+      once_tac.
+    + exists [SApp 0; SCliDisconnected; SSync; SCliConnecting], [SSrvConnected; SSrvDisconnected].
+      once_tac.
+    + exists [SApp 0], [SSync; SCliConnecting; SCliVerify; SSrvConnected; SSrvDisconnected].
+      once_tac.
+  - intros s H. unfold stuck_order in H.
+    repeat (apply elem_of_cons in H as [->|H]; [cbn; discriminate|]). inversion H.
+Qed.
+
+Example stuck_connecting :
+  let pr := prun (init_peer 1 [] [] stuck_order) stuck_trace in
+  s_client pr = CliConnecting /\ n_cli_transport pr = None /\ bit pr 25 = false /\ p_panic pr = None
+  /\ s_client (prun pr [inr o_idle; inr o_idle; inr o_idle]) = CliConnecting.
+Proof. vm_compute. repeat split. Qed.
+
+Theorem existed_bit_invariant_refuted : ~ existed_bit_invariant_statement.
+Proof.
+  intros H. destruct stuck_order_ok as [H1 H2].
+  specialize (H 1 [] [] stuck_order stuck_trace H1 H2).
+  assert (ops_ok stuck_trace) as Hok.
+  { intros op Hin. unfold stuck_trace in Hin.
+    repeat (apply elem_of_cons in Hin as [Hin|Hin]; [first [discriminate Hin | injection Hin as ->; exact I]|]).
+    inversion Hin. }
+  specialize (H Hok). cbv zeta in H.
+  assert (s_client (prun (init_peer 1 [] [] stuck_order) stuck_trace) <> CliDisconnected) as Hc
+    by (vm_compute; discriminate).
+  specialize (H Hc). vm_compute in H. discriminate H.
+Qed.
+
+(* What does hold: if the client transport changes only between frames (no deferred command
+   inserts or removes it in the middle of the schedule), the bit is set whenever a state other
+   than Disconnected is published or pending and no return to Disconnected is pending. *)
+Definition quiet (pr : peer_state) (o : frame_oracle) : Prop :=
+  during pr o (fun m => n_cli_transport m = n_cli_transport pr).
+Fixpoint quiet_run (pr : peer_state) (l : list (app_op + frame_oracle)) : Prop :=
+  match l with
+  | [] => True
+  | inl op :: l' => quiet_run (app_step pr op) l'
+  | inr o :: l' => quiet pr o /\ quiet_run (frame pr o) l'
+  end.
+Definition existed_seen (pr : peer_state) : Prop :=
+  p_panic pr = None ->
+  s_next_client pr = Some CliConnecting
+  \/ (s_client pr <> CliDisconnected /\ s_next_client pr <> Some CliDisconnected) ->
+  bit pr 25 = true.
+
+Lemma frame_bits pr o :
+  p_panic pr = None -> p_cond_bit (frame pr o) = p_cond_bit (frame_at pr o (p_order pr)).
+Proof.
+  intros Hp. rewrite frame_unfold by auto.
+  destruct (frame_end_c1 (frame_at pr o (p_order pr))) as [Hc _].
+  exact (f_equal (fun c => snd (fst (fst c))) Hc).
+Qed.
+
+Lemma bit_set_when_present pr o x :
+  p_panic (frame pr o) = None -> SCliDisconnected ∈ p_order pr ->
+  during pr o (fun m => n_cli_transport m = Some x) -> bit (frame pr o) 25 = true.
+Proof.
+  intros Hp Hin Hd.
+  assert (p_panic pr = None) as Hp0.
+  { destruct (p_panic pr) eqn:E; [erewrite frame_panicked in Hp by eauto; congruence|reflexivity]. }
+  unfold bit. rewrite frame_bits by auto. fold (bit (frame_at pr o (p_order pr)) 25).
+  assert (forall l, (exists l2, p_order pr = l ++ l2) -> SCliDisconnected ∈ l -> bit (frame_at pr o l) 25 = true) as Hinv.
+  { intros l. unfold frame_at.
+    apply (run_systems_ind (fun l m => (exists l2, p_order pr = l ++ l2) -> SCliDisconnected ∈ l -> bit m 25 = true)).
+    - intros _ H. inversion H.
+    - clear l. intros l s m Em IH Hpre Hl. specialize (IH (prefix_snoc _ _ _ Hpre)).
+      destruct Hpre as [l2 Hpre]. rewrite <- app_assoc in Hpre. cbn [app] in Hpre.
+      fold (frame_at pr o l) in Em.
+      assert (p_panic m = None) as Hpm by (subst m; eapply frame_at_no_panic; eauto).
+      assert (n_cli_transport m = Some x) as Htm by (subst m; eapply Hd; eauto).
+      destruct (run_system_step m s o Hpm) as [_ _ Hbits _ _ _].
+      destruct (decide (s = SCliDisconnected)) as [->|Hne].
+      + unfold bit. rewrite Hbits. unfold bits_after, bitupd. rewrite Htm. cbn.
+        rewrite lookup_insert. reflexivity.
+      + rewrite (bit_after_other m s _ 25 Hbits); [|congruence|discriminate].
+        apply IH. apply elem_of_app in Hl as [Hl|Hl]; [exact Hl|].
+        apply elem_of_list_singleton in Hl. congruence. }
+  apply Hinv; [exists []; symmetry; apply app_nil_r|exact Hin].
+Qed.
+
+Lemma upd_ent_panic pr e f : p_panic (upd_ent pr e f) = p_panic pr.
+Proof. unfold upd_ent. case_match; reflexivity. Qed.
+
+Lemma add_child_panic_mono pr p c x : p_panic pr = Some x -> p_panic (add_child pr p c) = Some x.
+Proof.
+  intros H. unfold add_child, set_panic. rewrite H.
+  repeat case_match; rewrite ?upd_ent_panic; assumption.
+Qed.
+
+Lemma app_step_panic_mono pr op x : p_panic pr = Some x -> p_panic (app_step pr op) = Some x.
+Proof.
+  intros H. destruct op; unfold app_step; cbv zeta; rewrite ?upd_ent_panic; try exact H.
+  - destruct (alive pr c); [apply add_child_panic_mono|]; exact H.
+  - destruct host; exact H.
+Qed.
+
+Lemma frame_existed_seen pr o :
+  existed_seen pr -> setup_inv pr -> next_client_legal pr -> SCliDisconnected ∈ p_order pr ->
+  quiet pr o -> existed_seen (frame pr o).
+Proof.
+  intros HJ Hsi Hleg Hin Hq Hp Hante.
+  assert (p_panic pr = None) as Hp0.
+  { destruct (p_panic pr) eqn:E; [erewrite frame_panicked in Hp by eauto; congruence|reflexivity]. }
+  unfold quiet in Hq. destruct (n_cli_transport pr) as [x|] eqn:Ht.
+  { eapply bit_set_when_present; eauto. }
+  exfalso.
+  destruct (n_setup pr) eqn:Hs.
+  2:{ pose proof (frame_setup_inv pr o Hsi) as Hsi'.
+      assert (n_setup (frame pr o) = false) as Hs'.
+      { rewrite frame_unfold by auto. destruct (frame_end_c1 (frame_at pr o (p_order pr))) as [Hc _].
+        apply c1_cA in Hc. destruct (frame_at_fields pr o (p_order pr)) as (_ & _ & F & _).
+        rewrite <- Hs, <- F. exact (f_equal (fun c => snd (fst c)) Hc). }
+      destruct (Hsi' Hs') as (E1 & E2 & _). rewrite E1, E2 in Hante.
+      destruct Hante as [H|[H _]]; [discriminate|contradiction]. }
+  assert (is_cli_disconnected (default (s_client pr) (s_next_client pr)) = false -> bit pr 25 = true) as Hb.
+  { intros Hc. apply HJ; [exact Hp0|]. unfold next_client_legal, nc_ok in Hleg.
+    destruct (s_next_client pr) as [[]|] eqn:En; cbn in Hc; try discriminate.
+    - right. split; [|discriminate]. destruct (s_client pr); try contradiction; discriminate.
+    - left. reflexivity.
+    - right. split; [|discriminate]. destruct (s_client pr); try discriminate. }
+  pose proof (client_removal_frame pr o Hp Hs Hin Hb Hq) as Hn.
+  pose proof (frame_s_client pr o Hp0) as Hc.
+  destruct (is_cli_disconnected (default (s_client pr) (s_next_client pr))) eqn:Hcd.
+  - rewrite Hn in Hante. destruct Hante as [H|[H _]]; [discriminate|].
+    rewrite Hc in H. destruct (default (s_client pr) (s_next_client pr)); try discriminate. contradiction.
+  - rewrite Hn in Hante. destruct Hante as [H|[_ H]]; [discriminate|contradiction].
+Qed.
+
+Theorem existed_bit_invariant_partial id sty rg ord l :
+  order_has_state_systems ord -> order_keys_ok ord -> ops_ok l ->
+  quiet_run (init_peer id sty rg ord) l ->
+  existed_seen (prun (init_peer id sty rg ord) l).
+Proof.
+  intros Ho Hk Hok Hq.
+  assert (forall l pr, ops_ok l -> quiet_run pr l ->
+    existed_seen pr /\ setup_inv pr /\ next_client_legal pr /\ order_has_state_systems (p_order pr) ->
+    existed_seen (prun pr l)) as Hgen.
+  { clear. induction l as [|[op|o] l IH]; intros pr Hok Hq (H1 & H2 & H3 & H4); cbn [prun]; [exact H1| |].
+    - apply IH; [intros op' Hin; apply Hok; right; exact Hin|exact Hq|].
+      destruct (app_step_spec pr op). split; [|split; [|split]].
+      + intros Hp Ha. unfold bit. rewrite as_bits0. apply H1.
+        * destruct (p_panic pr) eqn:E; [|reflexivity]. exfalso.
+          rewrite (app_step_panic_mono pr op _ E) in Hp. discriminate.
+        * rewrite <- as_client0, <- as_next_client0. exact Ha.
+      + apply app_step_setup_inv, H2.
+      + unfold next_client_legal. rewrite as_client0, as_next_client0. exact H3.
+      + rewrite app_step_order. destruct op; try exact H4. apply (Hok (OSetOrder order)). left.
+    - destruct Hq as [Hq1 Hq2].
+      apply IH; [intros op' Hin; apply Hok; right; exact Hin|exact Hq2|]. split; [|split; [|split]].
+      + apply frame_existed_seen; auto. destruct H4 as (_ & _ & _ & _ & H4). apply once_in, H4.
+      + apply frame_setup_inv, H2.
+      + apply frame_next_client_legal, H3.
+      + rewrite frame_order. exact H4. }
+  apply Hgen; auto. split; [|split; [|split]].
+  - intros _ [H|[H _]]; [discriminate H|exfalso; apply H; reflexivity].
+  - intros _. repeat split; reflexivity.
+  - exact I.
+  - exact Ho.
+Qed.
+
+(* ================================================================================================ *)
+(* 4. acts_only_when_connected                                                                       *)
+(* ================================================================================================ *)
+
+Definition server_chain (s : sysid) : bool :=
+  match s with
+  | SSrvRemoved | SSrvCreated | SSrvParented | SSrvReact | SSrvMat | SSrvImg | SSrvMesh | SSrvAudio
+  | SSrvPromote | SSrvClientConnected | SSrvPoll => true
+  | _ => false
+  end.
+Definition client_chain (s : sysid) : bool :=
+  match s with
+  | SCliRemoved | SCliCreated | SCliParented | SCliReact | SCliMat | SCliImg | SCliMesh | SCliAudio
+  | SCliPoll => true
+  | _ => false
+  end.
+
+(* A tracking / receiving system whose gate is closed does nothing at all: not even a tick. *)
+Theorem acts_only_when_connected pr s o :
+  (server_chain s = true -> server_gate pr = false -> run_system pr s o = pr)
+  /\ (client_chain s = true -> client_gate pr = false -> run_system pr s o = pr).
+Proof.
+  split; intros Hs Hg; unfold run_system; destruct (p_panic pr); try reflexivity;
+    destruct s; try discriminate Hs; rewrite Hg; reflexivity.
+Qed.
+
+(* contrapositive: a system of the chains that changes anything ran in state Connected, with its
+   transport present and the plugin set up, at that point of the frame *)
+Corollary acts_implies_connected pr s o :
+  run_system pr s o <> pr ->
+  (server_chain s = true -> n_setup pr = true /\ n_srv_transport pr <> None /\ s_server pr = SrvConnected)
+  /\ (client_chain s = true -> n_setup pr = true /\ n_cli_transport pr <> None /\ s_client pr = CliConnected).
+Proof.
+  intros Hne. destruct (acts_only_when_connected pr s o) as [H1 H2]. split; intros Hs.
+  - destruct (server_gate pr) eqn:Hg; [|exfalso; auto]. unfold server_gate in Hg.
+    destruct (n_setup pr), (n_srv_transport pr), (s_server pr); try discriminate Hg. repeat split; discriminate.
+  - destruct (client_gate pr) eqn:Hg; [|exfalso; auto]. unfold client_gate in Hg.
+    destruct (n_setup pr), (n_cli_transport pr), (s_client pr); try discriminate Hg. repeat split; discriminate.
+Qed.
+
+(* whole frames: while the published state is not Connected at the start of the schedule, the
+   chain's systems are the identity at every position of that frame *)
+Corollary chain_idle_frame pr o l1 s l2 :
+  p_order pr = l1 ++ s :: l2 ->
+  (server_chain s = true -> default (s_server pr) (s_next_server pr) <> SrvConnected ->
+     frame_at pr o (l1 ++ [s]) = frame_at pr o l1)
+  /\ (client_chain s = true -> default (s_client pr) (s_next_client pr) <> CliConnected ->
+     frame_at pr o (l1 ++ [s]) = frame_at pr o l1).
+Proof.
+  intros Ho. unfold frame_at. rewrite run_systems_snoc. fold (frame_at pr o l1).
+  destruct (frame_at_fields pr o l1) as (Hc & Hs & _ & _).
+  destruct (acts_only_when_connected (frame_at pr o l1) s o) as [H1 H2].
+  split; intros Hch Hne; [apply H1|apply H2]; auto.
+  - unfold server_gate. rewrite Hs. destruct (default (s_server pr) (s_next_server pr)); [congruence|]. apply andb_false_r.
+  - unfold client_gate. rewrite Hc. destruct (default (s_client pr) (s_next_client pr)); try apply andb_false_r. congruence.
+Qed.
+
+(* ================================================================================================ *)
+(* 5. InitialSyncFinished                                                                            *)
+(* ================================================================================================ *)
+
+Definition is_fin (m : msg) : bool := match m with MFinInit => true | _ => false end.
+Definition inbox (pr : peer_state) (h : peer) : list msg := default [] (n_inbox pr !! h).
+
+(* 5a. where the counter can move: only client poll and the body of server_connected *)
+Theorem finished_event_sources pr s o :
+  s <> SCliPoll ->
+  p_finished_events (run_system pr s o) =
+    match s, p_panic pr with
+    | SSrvConnected, None => if fires pr SSrvConnected then p_finished_events pr + 1 else p_finished_events pr
+    | _, _ => p_finished_events pr
+    end.
+Proof.
+  intros Hs. destruct (p_panic pr) eqn:Hp.
+  - erewrite run_system_panicked by eauto. destruct s; reflexivity.
+  - destruct (run_system_step pr s o Hp) as [_ _ _ _ _ Hf]. rewrite (Hf Hs).
+    destruct s; try reflexivity. congruence.
+Qed.
+
+Lemma frame_start_fin pr o : p_finished_events (frame_start pr o) = p_finished_events pr.
+Proof. apply frame_start_spec. Qed.
+
+(* 5b. the client receiver: one event per FinishedInitialSync polled, FIFO *)
+Lemma g1k_client_received_other pr k m :
+  is_fin m = false -> g1k k (client_received pr k m) = g1k k pr.
+Proof. intros H. destruct m; try discriminate H; unfold client_received; proj_solve. Qed.
+
+Lemma client_received_fin pr k m :
+  p_finished_events (client_received pr k m)
+  = p_finished_events pr + (if is_fin m then 1 else 0).
+Proof.
+  destruct (is_fin m) eqn:E.
+  - destruct m; try discriminate E. reflexivity.
+  - destruct (g1k_elim _ _ _ (g1k_client_received_other pr k m E)) as (_ & _ & -> & _). lia.
+Qed.
+
+Lemma client_received_inbox pr k m : n_inbox (client_received pr k m) = n_inbox pr.
+Proof.
+  destruct m; unfold client_received, push_cmd, request_asset; cbv zeta; repeat case_match; reflexivity.
+Qed.
+
+Lemma client_received_inbox' pr k m h : inbox (client_received pr k m) h = inbox pr h.
+Proof. unfold inbox. rewrite client_received_inbox. reflexivity. Qed.
+
+Lemma client_poll_S pr k h n :
+  client_poll pr k h (S n) =
+    client_poll (match pop_inbox pr h with Some (m, pr') => client_received pr' k m | None => pr end) k h n.
+Proof. reflexivity. Qed.
+
+Lemma pop_inbox_spec pr h :
+  match pop_inbox pr h with
+  | Some (m, pr') => exists rest, inbox pr h = m :: rest /\ inbox pr' h = rest
+                     /\ p_finished_events pr' = p_finished_events pr
+  | None => inbox pr h = []
+  end.
+Proof.
+  unfold pop_inbox, inbox. destruct (n_inbox pr !! h) as [[|m rest]|] eqn:E; cbn; try reflexivity.
+  exists rest. cbn. rewrite lookup_insert. auto.
+Qed.
+
+Theorem client_poll_fifo pr k h n :
+  inbox (client_poll pr k h n) h = drop n (inbox pr h)
+  /\ p_finished_events (client_poll pr k h n)
+     = p_finished_events pr + N.of_nat (length (filter (fun m => is_fin m = true) (take n (inbox pr h)))).
+Proof.
+  revert pr. induction n as [|n IH]; intros pr.
+  - split; [reflexivity|]. change (client_poll pr k h 0) with pr.
+    change (take 0 (inbox pr h)) with (@nil msg). rewrite filter_nil. symmetry. apply N.add_0_r.
+  - rewrite client_poll_S. pose proof (pop_inbox_spec pr h) as Hpop.
+    destruct (pop_inbox pr h) as [[m pr']|].
+    + destruct Hpop as (rest & E1 & E2 & E3). destruct (IH (client_received pr' k m)) as [I1 I2].
+      rewrite client_received_inbox' in I1, I2.
+      rewrite I1, I2, E1, E2, client_received_fin, E3. cbn [drop take]. split; [reflexivity|].
+      rewrite filter_cons. destruct (is_fin m); cbn.
+      * destruct (decide (true = true)); [|congruence]. cbn [length]. lia.
+      * destruct (decide (false = true)); [discriminate|]. lia.
+    + destruct (IH pr) as [I1 I2]. rewrite I1, I2, Hpop. rewrite drop_nil, take_nil. cbn. auto.
+Qed.
+
+(* at the schedule position of the client poll *)
+Theorem finished_event_once_per_join pr o :
+  p_panic pr = None ->
+  p_finished_events (run_system pr SCliPoll o) =
+    match n_cli_transport pr with
+    | Some (h, _) =>
+        if client_gate pr
+        then p_finished_events pr
+             + N.of_nat (length (filter (fun m => is_fin m = true) (take (fo_cli_poll o) (inbox pr h))))
+        else p_finished_events pr
+    | None => p_finished_events pr
+    end.
+Proof.
+  intros Hp. unfold run_system. rewrite Hp. cbv beta iota zeta.
+  destruct (client_gate pr) eqn:Hg.
+  2:{ destruct (n_cli_transport pr) as [[h t]|]; reflexivity. }
+  unfold run_body, begin_run, end_run. cbv zeta. cbn [sys_key].
+  unfold client_gate in Hg. destruct (n_cli_transport pr) as [[h t]|] eqn:Ht.
+  2:{ rewrite andb_false_r in Hg. discriminate. }
+  cbn. rewrite Ht.
+  destruct (client_poll_fifo (pr <| p_tick := p_tick pr + 1 |>) 34 h (fo_cli_poll o)) as [_ H].
+  exact H.
 Qed.
